@@ -539,6 +539,30 @@ PROPS['C13']['rule'] = PROPS['C13']['rule'] + ' || ' + _PACKED_RULE
 PROPS['C12']['suites'] = PROPS['C12']['suites'] + [_CHUNK_SUITE]
 PROPS['C12']['rule'] = PROPS['C12']['rule'] + ' || chunk suite (RawMessage.Chunk / GetChunk against the option map the specification parser finds)'
 
+# round 6: Chunk() must add the chunk option and nothing else (cid suite: constructors x Chunk()); RawMessage through a stream
+# writer and concurrent GetChunk lookups live in the chunk suite
+_CID_SUITE = PROPS['C12']['suites'][0]
+for _p in ('C01', 'C02', 'C03'):
+    PROPS[_p]['suites'] = PROPS[_p]['suites'] + [_CID_SUITE]
+    PROPS[_p]['rule'] = PROPS[_p]['rule'] + ' || cid suite: every constructor, then Chunk(): the option map afterwards is the constructor\'s plus the chunk'
+if _CHUNK_SUITE not in PROPS['C13']['suites']:
+    PROPS['C13']['suites'] = PROPS['C13']['suites'] + [_CHUNK_SUITE]
+    PROPS['C13']['rule'] = PROPS['C13']['rule'] + ' || chunk suite: RawMessage.EncodeMsg through a stream writer at sizes around and beyond its 2 KiB buffer, followed by another message (RAWE)'
+
+# C08 / C16 as statements about the sequence of events (Conc/Sections.lean): sections are uninterrupted in the execution log
+PROPS['C08']['theorems'] = PROPS['C08']['theorems'] + ['FV.Lk.held_log', 'FV.Lk.shared_log', 'FV.Lk.section_uninterrupted',
+                                                       'FV.Tie.C08_send_section_uninterrupted']
+PROPS['C08']['explanation'] = PROPS['C08']['explanation'] + (
+    " As a statement about event sequences: the execution log of a schedule (which goroutine executed which node, in order) is defined in "
+    "Conc/Sections.lean; held_log / shared_log / section_uninterrupted are proved for every checked program and every schedule, and "
+    "C08_send_section_uninterrupted instantiates them on the regenerated graph: from any reachable state in which a goroutine is inside its "
+    "send section, and until it leaves it, every use of the connection in the log is that goroutine's own.")
+PROPS['C16']['theorems'] = PROPS['C16']['theorems'] + ['FV.Tie.wire_calls_only_in_methods', 'FV.Lk.held_log', 'FV.Lk.section_uninterrupted1', 'FV.Tie.C16_writes_under_writeLock',
+                                                       'FV.Tie.C16_write_section_uninterrupted']
+PROPS['C16']['explanation'] = PROPS['C16']['explanation'] + (
+    " C16_write_section_uninterrupted: in the execution log of every schedule, while a goroutine holds writeLock every frame-writing call "
+    "that happens is its own (frames are written one at a time, as a statement about the event sequence).")
+
 # C10, memory clause: allocation model + partial theorems + witnesses; the translator lists the count-sized make sites
 PROPS['C10']['translator'] = True
 PROPS['C10']['lean_modules'] = PROPS['C10']['lean_modules'] + ['FluentVerif.Tie.Alloc']
